@@ -390,10 +390,27 @@ pub fn inline_comment_prog(run: &Run, src: &mut Src, depth: usize) -> Option<Pro
 		let member_separator = s == "," && matches!(stack.last(), Some('[') | Some('{')) && !matches!(next, "]" | "}" | "" | "for" | "if");
 		if member_separator && src.chance(1, 3) {
 			let w = format!("c{} note", comments.len() + 1);
-			out.push_str(if src.chance(1, 2) { " // " } else { " # " });
-			out.push_str(&w);
-			out.push('\n');
-			comments.push(w);
+			match src.below(5) {
+				0 | 1 => {
+					out.push_str(" // ");
+					out.push_str(&w);
+					out.push('\n');
+					comments.push(w);
+				}
+				2 | 3 => {
+					out.push_str(" # ");
+					out.push_str(&w);
+					out.push('\n');
+					comments.push(w);
+				}
+				_ => {
+					// a block comment that starts on the member's line and ends on a later one
+					out.push_str(" /* ");
+					out.push_str(&w);
+					out.push_str("\n   tail */\n");
+					comments.push(format!("{w} tail"));
+				}
+			}
 		} else {
 			out.push(' ');
 		}
@@ -618,7 +635,11 @@ pub fn fixpoint_case(run: &Run, p: &Prog) -> CaseOut {
 					FmtOut::Ok(out2) => {
 						let f2 = cli_form(&out2);
 						if f2 != f1 {
-							if run.is_known(K20_LAYOUT) && layout_only_difference(&f1, &f2) && converges(&f2, indent, 4) {
+							// the recorded finding is about re-flowed groups; a second pass that only adds or drops
+							// empty lines (every non-empty line unchanged) is not it
+							let non_empty = |s: &str| -> Vec<String> { s.lines().filter(|l| !l.trim().is_empty()).map(str::to_owned).collect() };
+							let blank_lines_only = non_empty(&f1) == non_empty(&f2);
+							if run.is_known(K20_LAYOUT) && !blank_lines_only && layout_only_difference(&f1, &f2) && converges(&f2, indent, 4) {
 								known = Some(K20_LAYOUT.to_owned());
 							} else {
 								problems.push(format!("indent {indent}: formatting the formatter's output changed it\n--- first:\n{f1}--- second:\n{f2}"));
@@ -734,6 +755,10 @@ pub fn run_c20(run: &Run) {
 		Some(p) => fixpoint_case(run, &p).class("item-comments"),
 		None => CaseOut::discard(String::new(), "no multi-line group to decorate"),
 	});
+	run.explore("fixpoint-inline-comments", n, 10..=250, |src| match inline_comment_prog(run, src, 4) {
+		Some(p) => fixpoint_case(run, &p).class("inline-comments"),
+		None => CaseOut::discard(String::new(), "no member separator to decorate"),
+	});
 	for (name, text) in &inputs {
 		let p = Prog { tree: Ex::Null, text: text.clone(), comments: vec![], decorated: true, anywhere: true };
 		let out = fixpoint_case(run, &p);
@@ -821,6 +846,7 @@ pub fn replay(run: &Run, prop: &str, stage: &str, tape: Option<&[u16]>, v: &serd
 		("C20", "fixpoint-plain", Some(t)) => Some(fixpoint_case(run, &gen_prog(run, &mut Src::new(t), 4, 0))),
 		("C20", "fixpoint-item-comments", Some(t)) => item_comment_prog(run, &mut Src::new(t), 4).map(|p| fixpoint_case(run, &p)),
 		("C20", "fixpoint-decorated", Some(t)) => Some(fixpoint_case(run, &gen_prog(run, &mut Src::new(t), 4, 1))),
+		("C20", "fixpoint-inline-comments", Some(t)) => inline_comment_prog(run, &mut Src::new(t), 4).map(|p| fixpoint_case(run, &p)),
 		("C20", "fixpoint-repo-inputs", _) => {
 			let p = Prog { tree: Ex::Null, text: v["case"].as_str()?.to_owned(), comments: vec![], decorated: true, anywhere: true };
 			Some(fixpoint_case(run, &p))
